@@ -265,4 +265,141 @@ def NoLongQuoteRun (body : List Cp) : Bool :=
   | some (_, _, r) => quoteRun r == 0
   | none => true
 
+/-- extent and provenance of the specification's raw value -/
+theorem blockBody_drop_mem (m : Nat) : ∀ (l raw : List Cp) (n : Nat) (r : List Cp), l.length ≤ m →
+    blockBody l = some (raw, n, r) → l.drop n = r ∧ ∀ x ∈ raw, x ∈ l := by
+  induction m with
+  | zero =>
+    intro l raw n r hl h
+    cases l with
+    | nil => simp [blockBody_nil] at h
+    | cons c rest => simp at hl
+  | succ m ih =>
+    intro l raw n r hl h
+    cases l with
+    | nil => simp [blockBody_nil] at h
+    | cons c rest =>
+      by_cases h1 : ∃ r1, c :: rest = 34 :: 34 :: 34 :: r1
+      · obtain ⟨r1, e⟩ := h1
+        rw [e, blockBody_close] at h
+        simp at h
+        obtain ⟨rfl, rfl, rfl⟩ := h
+        rw [e]; simp
+      · by_cases h2 : ∃ r1, c :: rest = 92 :: 34 :: 34 :: 34 :: r1
+        · obtain ⟨r1, e⟩ := h2
+          rw [e, blockBody_esc] at h
+          cases hb : blockBody r1 with
+          | none => simp [hb, consB] at h
+          | some p =>
+            obtain ⟨raw', n', r'⟩ := p
+            simp [hb, consB] at h
+            obtain ⟨rfl, rfl, rfl⟩ := h
+            have hl' : r1.length ≤ m := by
+              have := congrArg List.length e
+              simp at this hl; omega
+            obtain ⟨i1, i2⟩ := ih r1 raw' n' r' hl' hb
+            rw [e]
+            refine ⟨by simpa using i1, ?_⟩
+            intro x hx
+            simp at hx ⊢
+            rcases hx with hx | hx
+            · simp [hx]
+            · simp [i2 x hx]
+        · rw [blockBody_plain c rest (fun r e => h1 ⟨r, e⟩) (fun r e => h2 ⟨r, e⟩)] at h
+          split at h
+          · simp at h
+          · cases hb : blockBody rest with
+            | none => simp [hb, consB] at h
+            | some p =>
+              obtain ⟨raw', n', r'⟩ := p
+              simp [hb, consB] at h
+              obtain ⟨rfl, rfl, rfl⟩ := h
+              obtain ⟨i1, i2⟩ := ih rest raw' n' r' (by simp at hl; omega) hb
+              refine ⟨by simpa using i1, ?_⟩
+              intro x hx
+              simp at hx ⊢
+              rcases hx with rfl | hx
+              · simp
+              · right; exact i2 x hx
+
+theorem blockBody_drop {l raw : List Cp} {n : Nat} {r : List Cp} (h : blockBody l = some (raw, n, r)) :
+    l.drop n = r := (blockBody_drop_mem l.length l raw n r (Nat.le_refl _) h).1
+
+theorem blockBody_ascii {l raw : List Cp} {n : Nat} {r : List Cp} (h : blockBody l = some (raw, n, r))
+    (hA : Ascii l) : Ascii raw :=
+  fun x hx => hA x ((blockBody_drop_mem l.length l raw n r (Nat.le_refl _) h).2 x hx)
+
+/-! the specification's BlockStringValue keeps ASCII -/
+
+def AllAscii (ls : List (List Nat)) : Prop := ∀ l ∈ ls, Ascii l
+
+theorem splitLinesC_ascii (raw : List Nat) (h : Ascii raw) : AllAscii (splitLinesC raw) := by
+  fun_induction splitLinesC raw with
+  | case1 => intro l hl; simp at hl; subst hl; exact Ascii_nil
+  | case2 rest ih =>
+    intro l hl; simp at hl
+    rcases hl with rfl | hl
+    · exact Ascii_nil
+    · exact ih (Ascii_tail (Ascii_tail h)) l hl
+  | case3 c rest hn hc ih =>
+    intro l hl; simp at hl
+    rcases hl with rfl | hl
+    · exact Ascii_nil
+    · exact ih (Ascii_tail h) l hl
+  | case4 c rest hn hc hs ih =>
+    intro l hl; simp at hl; subst hl
+    exact Ascii_cons (Ascii_head h) Ascii_nil
+  | case5 c rest hn hc l0 ls hs ih =>
+    have ih' := ih (Ascii_tail h)
+    rw [hs] at ih'
+    intro l hl; simp at hl
+    rcases hl with rfl | hl
+    · exact Ascii_cons (Ascii_head h) (ih' l0 (by simp))
+    · exact ih' l (by simp [hl])
+
+theorem dropWhileBlank_sub (ls : List (List Cp)) : ∀ l ∈ dropWhileBlank ls, l ∈ ls := by
+  induction ls with
+  | nil => simp [dropWhileBlank]
+  | cons a t ih =>
+    intro l hl
+    unfold dropWhileBlank at hl
+    split at hl
+    · exact List.mem_cons_of_mem _ (ih l hl)
+    · exact hl
+
+theorem joinLF_ascii (ls : List (List Cp)) (h : AllAscii ls) : Ascii (joinLF ls) := by
+  induction ls with
+  | nil => exact Ascii_nil
+  | cons a t ih =>
+    cases t with
+    | nil => simpa [joinLF] using h a (by simp)
+    | cons b t' =>
+      simp only [joinLF]
+      exact Ascii_append (h a (by simp)) (Ascii_cons (by omega)
+        (ih (fun l hl => h l (List.mem_cons_of_mem _ hl))))
+
+theorem specBlockStringValue_ascii (raw : List Nat) (h : Ascii raw) : Ascii (Spec.blockStringValue raw) := by
+  unfold Spec.blockStringValue
+  have hs := splitLinesC_ascii raw h
+  apply joinLF_ascii
+  intro l hl
+  simp only [List.mem_reverse] at hl
+  have hl := dropWhileBlank_sub _ l hl
+  simp only [List.mem_reverse] at hl
+  have hl := dropWhileBlank_sub _ l hl
+  revert hl
+  generalize splitLinesC raw = lines at hs
+  cases lines with
+  | nil => simp
+  | cons first others =>
+    simp only []
+    cases commonIndentOf others with
+    | none => intro hl; exact hs l hl
+    | some n =>
+      intro hl
+      simp only [List.mem_cons, List.mem_map] at hl
+      rcases hl with rfl | ⟨a, ha, rfl⟩
+      · exact hs _ (by simp)
+      · exact Ascii_drop n (hs a (by simp [ha]))
+
 end Gql.Lexer
